@@ -71,7 +71,12 @@ def run(E: Engine, rep: Report, tier: str) -> dict:
     rep.check(ok, "FLOW", "_QubitRef.increment_phase|additive-at-last-used", "phase[last_used] = last_phase + phi", f"increment_phase is no longer `self.phase[self.last_used] = self.phase.last_phase + phi`: {[(sh(l.target, 50), sh(l.value, 80)) for l in st]}", E.where(inc))
     ulu = E.method(BR + "._QubitRef", "update_last_used")
     st = [l for l in S(E, ulu).logged("store") if l.fn == ulu.short and l.target == ("attr", ("name", "self"), "last_used")]
-    rep.check(len(st) == 1 and is_(st[0].value, "max(self.last_used, new_t)") is not None, "FLOW", "_QubitRef.update_last_used|monotone", "last_used = max(last_used, new_t)", "update_last_used is no longer monotone (max)", E.where(ulu))
+    mono = bool(st)
+    for l_ in st:
+        as_max = is_(l_.value, "max(self.last_used, new_t)") is not None
+        guarded = l_.value == ("name", "new_t") and any(is_(x, "self.last_used < new_t") is not None or is_(x, "self.last_used <= new_t") is not None for x in sym.conj_of(l_.cond))
+        mono = mono and (as_max or guarded)
+    rep.check(mono, "FLOW", "_QubitRef.update_last_used|monotone", "last_used = max(last_used, new_t)", "update_last_used is no longer monotone (max)", E.where(ulu))
     lp = [f for f in pt.methods.get("last_phase", [])][0]
     lt = [f for f in pt.methods.get("last_time", [])][0]
     rep.check(is_(S(E, lp).ret, "self._phases[-1]") is not None and is_(S(E, lt).ret, "self._times[-1]") is not None, "FLOW", "_PhaseTracker|last-entries", "last_phase/last_time read the last entries", "last_phase/last_time no longer read the last entry", E.where(lp))
@@ -103,7 +108,10 @@ def run(E: Engine, rep: Report, tier: str) -> dict:
     # inside _validate_and_adjust_pulse: returned pulse phase = pulse.phase + phase_ref
     rv = S(E, vadj).ret
     pulses = [c for c in sym.subterms(rv) if c[0] == "call" and c[1] == ("name", "Pulse")]
-    ok = bool(pulses) and all(is_(_kwarg(c, 2, "phase"), "pulse.phase + (phase_ref if phase_ref else 0)") is not None or is_(_kwarg(c, 2, "phase"), "pulse.phase + phase_ref") is not None for c in pulses)
+    from .symutil import push_ifexp as _push
+
+    want_ph = _push(sym.Pattern("pulse.phase + (phase_ref if phase_ref else 0)").term)
+    ok = bool(pulses) and all(_kwarg(c, 2, "phase") is not None and (_push(_kwarg(c, 2, "phase")) == want_ph or is_(_kwarg(c, 2, "phase"), "pulse.phase + phase_ref") is not None) for c in pulses)
     rep.check(ok, "FLOW", "_validate_and_adjust_pulse|phase=pulse.phase+phase_ref", "scheduled phase = programmed phase + reference", f"the returned pulse's phase is no longer pulse.phase + phase_ref: {[sh(_kwarg(c, 2, 'phase'), 80) for c in pulses]}", E.where(vadj))
     ok = all(_kwarg(c, 3, "post_phase_shift") == sym.Pattern("pulse.post_phase_shift").term for c in pulses) and bool(pulses)
     rep.check(ok, "FLOW", "_validate_and_adjust_pulse|keeps-post_phase_shift", "the adjusted pulse keeps the programmed post_phase_shift", "the adjusted pulse no longer carries pulse.post_phase_shift", E.where(vadj))
